@@ -44,7 +44,24 @@ def dec_pol(t, i):
             s, i = dec_pol(t, i)
             subs.append(s)
         return (x, subs), i
+    if x == 12:
+        n = t[i + 1]
+        i += 2
+        subs = []
+        for _ in range(n):
+            w = t[i]
+            c, i = dec_pol(t, i + 1)
+            subs.append((w, c))
+        return (12, subs), i
     raise ValueError("bad token %r" % x)
+
+
+def kids(p):
+    """children of a node (odds stripped)"""
+    if p[0] == 9: return p[2]
+    if p[0] in (10, 11): return p[1]
+    if p[0] == 12: return [c for _, c in p[1]]
+    return []
 
 
 def show(p):
@@ -61,11 +78,12 @@ def show(p):
     if x == 9: return "thresh(%d,%s)" % (p[1], ",".join(show(s) for s in p[2]))
     if x == 10: return "and(%s)" % ",".join(show(s) for s in p[1])
     if x == 11: return "or(%s)" % ",".join(show(s) for s in p[1])
+    if x == 12: return "or(%s)" % ",".join("%d@%s" % (w, show(s)) for w, s in p[1])
     return "?"
 
 
 def size_depth(p):
-    subs = p[2] if p[0] == 9 else (p[1] if p[0] in (10, 11) else [])
+    subs = kids(p)
     if not subs:
         return 1, 1
     sd = [size_depth(s) for s in subs]
@@ -73,10 +91,8 @@ def size_depth(p):
 
 
 def atoms(p, acc):
-    if p[0] in (9,):
-        for s in p[2]: atoms(s, acc)
-    elif p[0] in (10, 11):
-        for s in p[1]: atoms(s, acc)
+    if p[0] in (9, 10, 11, 12):
+        for s in kids(p): atoms(s, acc)
     elif p[0] >= 2:
         acc.add(p)
     return acc
@@ -84,8 +100,7 @@ def atoms(p, acc):
 
 def has_const(p):
     if p[0] in (0, 1): return True
-    subs = p[2] if p[0] == 9 else (p[1] if p[0] in (10, 11) else [])
-    return any(has_const(s) for s in subs)
+    return any(has_const(s) for s in kids(p))
 
 
 def rpol(t, i):
@@ -297,6 +312,10 @@ def enc_pol(p):
         out = [9, p[1], len(p[2])]
         for s in p[2]: out += enc_pol(s)
         return out
+    if x == 12:
+        out = [12, len(p[1])]
+        for w, s in p[1]: out += [w] + enc_pol(s)
+        return out
     out = [x, len(p[1])]
     for s in p[1]: out += enc_pol(s)
     return out
@@ -323,9 +342,18 @@ def variants(p, concrete):
             subs = q[1]
             out.append(rebuild((21 - x, subs)))
             if subs:
+                out.append(rebuild((12, [(0 if i == 0 else 1, c) for i, c in enumerate(subs)])))
+            if subs:
                 out.append(rebuild((9, len(subs), subs)))
             for i, s in enumerate(subs):
                 rec(s, lambda n, i=i: rebuild((x, subs[:i] + [n] + subs[i + 1:])))
+        elif x == 12:
+            ws = q[1]
+            out.append(rebuild((11, [c for _, c in ws])))
+            out.append(rebuild((12, [(0, c) for _, c in ws])))
+            out.append(rebuild((12, [(1 if w == 0 else 0, c) for w, c in ws])))
+            for i, (w, c) in enumerate(ws):
+                rec(c, lambda n, i=i, w=w: rebuild((12, ws[:i] + [(w, n)] + ws[i + 1:])))
         else:
             for r in repl:
                 if r != q:
@@ -411,6 +439,14 @@ def histogram(lines):
         else:
             ct[d["check_timelocks"]] += 1
             lift["Ok" if not d["lift"].startswith(("Err", "PANIC")) else d["lift"]] += 1
+    def zero_odds(q):
+        return (q[0] == 12 and any(w == 0 for w, _ in q[1])) or any(zero_odds(c) for c in kids(q))
+
+    def has_odds(q):
+        return q[0] == 12 or any(has_odds(c) for c in kids(q))
+    conc = [describe(t)[1] for t in lines if t[0] == 3]
+    h["concrete_or_with_explicit_odds"] = sum(1 for c in conc if has_odds(c))
+    h["concrete_or_with_a_zero_odds_branch"] = sum(1 for c in conc if zero_odds(c))
     h["by_kind"] = dict(kinds)
     h["by_size_nodes"] = dict(sorted(sizes.items(), key=lambda kv: int(kv[0].split("-")[0])))
     h["by_depth"] = dict(sorted(depths.items()))
@@ -549,7 +585,7 @@ def run(rep, tier, seed, replay):
         "rule": "exhaustive: every semantic policy <= %d nodes over {UNSAT,TRIVIAL,pk(A),pk(B),older(5),after(100)}, every "
                 "semantic policy of 6..%d nodes over {UNSAT,TRIVIAL,pk(A)} (arity <= 3), entails on all ordered pairs of policies <= 3 x <= %d nodes "
                 "over 5 leaves and on policies with 8..25 terminals over 2..5 atoms, "
-                "every concrete policy <= 4 nodes (and/or/thresh arity 0..3) over 7 leaves (thorough: + all of 5 nodes over 5 leaves); + seeded random semantic / entailment / "
+                "every concrete policy <= 4 nodes (and/or/thresh arity 0..3; every or also with odds 0 on the first / last / all branches, a huge and equal odds) over 7 leaves (thorough: + all of 5 nodes over 5 leaves); + seeded random semantic / entailment / "
                 "concrete cases up to 30 nodes and 8 distinct atoms; every output compared with the model and judged by the "
                 "truth table over all assignments" % ((6, 8, 4) if tier == "thorough" else (5, 7, 3)),
         "input_distribution": histogram(lines),
